@@ -55,28 +55,27 @@ def falsify(line, out):
 def gen_cases(ctx, deep):
     rng = ctx.rng
     thorough = ctx.tier == "thorough" or deep
-    cases = []   # (suite, line)
     # --- encode: every string of length 0..2, 3-byte blocks exhaustively (thorough) or on a lattice
     for n in range(0, 3):
         for t in itertools.product(range(256), repeat=n):
-            cases.append(("enc-exh-len0-2", "urienc " + hx(bytes(t))))
+            yield (("enc-exh-len0-2", "urienc " + hx(bytes(t))))
     for n in range(0, 2):
         for t in itertools.product(range(256), repeat=n):
-            cases.append(("enc-raw", "b64enc " + hx(bytes(t))))
+            yield (("enc-raw", "b64enc " + hx(bytes(t))))
     stride = 1 if thorough else 251
     start = 0 if thorough else rng.randrange(251)
     for v in range(start, 1 << 24, stride):
-        cases.append(("enc-3byte-blocks", "urienc %06x" % v))
+        yield (("enc-3byte-blocks", "urienc %06x" % v))
     # round trip of every encoded tail/block: decode the reference encoding
     for n in range(1, 3):
         for t in itertools.product(range(256), repeat=n):
-            cases.append(("dec-roundtrip", "uridec " + hx(ref_encode(bytes(t)))))
+            yield (("dec-roundtrip", "uridec " + hx(ref_encode(bytes(t)))))
     for v in range(start, 1 << 24, stride * (1 if thorough else 3)):
-        cases.append(("dec-roundtrip", "uridec " + hx(ref_encode(v.to_bytes(3, "big")))))
+        yield (("dec-roundtrip", "uridec " + hx(ref_encode(v.to_bytes(3, "big")))))
     # --- decode: all 1- and 2-char texts over the full (non-NUL) byte range
     for n in range(1, 3):
         for t in itertools.product(range(1, 256), repeat=n):
-            cases.append(("dec-exh-len1-2", "uridec " + hx(bytes(t))))
+            yield (("dec-exh-len1-2", "uridec " + hx(bytes(t))))
     # 4-char groups: one free position over all bytes, the others over representatives
     reps = b"Az09+/-_=.\x80\xff" if thorough else b"Az9/_=."
     for pos in range(4):
@@ -84,21 +83,21 @@ def gen_cases(ctx, deep):
             for others in itertools.product(reps, repeat=3):
                 o = list(others)
                 o.insert(pos, free)
-                cases.append(("dec-4char-groups", "uridec " + hx(bytes(o))))
+                yield (("dec-4char-groups", "uridec " + hx(bytes(o))))
     # 5..8 char texts around the pad/length gates
     alpha = b"AQgw-_=+/.~"
     for n in (5, 6, 7, 8):
         for _ in range(4000 if thorough else 800):
-            cases.append(("dec-gates", "uridec " + hx(bytes(rng.choice(alpha) for _ in range(n)))))
+            yield (("dec-gates", "uridec " + hx(bytes(rng.choice(alpha) for _ in range(n)))))
     # raw base64_decode incl. lengths that are not multiples of 4
     for _ in range(3000 if thorough else 600):
         n = rng.randrange(0, 13)
-        cases.append(("dec-raw", "b64dec " + hx(bytes(rng.choice(b"AQgw+/=z.") for _ in range(n)))))
+        yield (("dec-raw", "b64dec " + hx(bytes(rng.choice(b"AQgw+/=z.") for _ in range(n)))))
     # --- random strings up to 64 KiB (buffer arithmetic under ASan)
     for _ in range(400 if thorough else 60):
         n = rng.choice([rng.randrange(0, 64), rng.randrange(64, 4096), rng.randrange(4096, 65537)])
         b = rng.randbytes(n)
-        cases.append(("rand-enc", "urienc " + hx(b)))
+        yield (("rand-enc", "urienc " + hx(b)))
         t = bytearray(ref_encode(b))
         if t and rng.random() < 0.5:
             for _ in range(rng.randrange(1, 4)):
@@ -106,47 +105,60 @@ def gen_cases(ctx, deep):
                 t[i] = rng.choice(b"=.+/-_A\x7f\x80") if rng.random() < 0.7 else rng.randrange(1, 256)
         if rng.random() < 0.3:
             t += bytes(rng.choice(b"=A") for _ in range(rng.randrange(1, 4)))
-        cases.append(("rand-dec", "uridec " + hx(bytes(t))))
+        yield (("rand-dec", "uridec " + hx(bytes(t))))
     # table/compare helpers
     for s in [b"none", b"HS256", b"hs256", b"HS2567", b"", b"EdDSA", b"EDDSA", b"ES256K", b"ES256k", b"RS256\x01"]:
-        cases.append(("alg-names", "stralg " + hx(s)))
+        yield (("alg-names", "stralg " + hx(s)))
     for i in range(0, 18):
-        cases.append(("alg-names", "algstr %d" % i))
-    return cases
+        yield (("alg-names", "algstr %d" % i))
 
 
 def run(ctx, model_ok, deep=False):
-    cases = gen_cases(ctx, deep)
-    lines = [c[1] for c in cases]
-    if model_ok:
-        eo, do, crashes = ctx.run_both_stateless(lines)
-    else:
-        rc, eo, err = ctx.run_exec(lines)
-        do, crashes = None, ([(len(eo), rc, err)] if rc != 0 else [])
-        eo = eo + ["<crash>"] * (len(lines) - len(eo))
     per = {}
-    for i, (suite, line) in enumerate(cases):
-        s = per.setdefault(suite, {"evaluations": 0, "outs": set(), "samples": [], "disagree": 0, "falsified": 0})
-        s["evaluations"] += 1
-        s["outs"].add(eo[i][:40])
-        if len(s["samples"]) < 3 and i % 97 == 0:
-            s["samples"].append({"op": line[:120], "impl": eo[i][:120], "model": (do[i][:120] if do else None)})
-        f = falsify(line, eo[i]) if eo[i] != "<crash>" else None
-        if f:
-            s["falsified"] += 1
-            if s["falsified"] <= 2:
-                ctx.violation("falsifier:" + suite, f, replay_lines=[line], detail="impl: %s" % eo[i])
-        if do is not None and eo[i] != do[i] and eo[i] != "<crash>":
-            s["disagree"] += 1
-            if s["disagree"] <= 2 and not f:
-                ctx.violation("correspondence:" + suite, "model and implementation disagree on `%s`" % line[:100],
-                              replay_lines=[line], detail="impl:  %s\nmodel: %s" % (eo[i], do[i]), no_input=True)
-    for at, rc, err in crashes:
-        ctx.violation("sanitizer", "executor died (rc=%s) on `%s`" % (rc, lines[at][:100] if at < len(lines) else "<exit>"),
-                      replay_lines=[lines[at]] if at < len(lines) else [], detail=err[-1500:])
+    # generated lazily and judged in batches of 1M cases, so that the exhaustive tier (16.8M three-byte
+    # blocks) does not have to hold everything in memory
+    batch = []
+
+    def flush():
+        if not batch:
+            return
+        cases = list(batch)
+        del batch[:]
+        lines = [c[1] for c in cases]
+        if model_ok:
+            eo, do, crashes = ctx.run_both_stateless(lines)
+        else:
+            rc, eo, err = ctx.run_exec(lines)
+            do, crashes = None, ([(len(eo), rc, err)] if rc != 0 else [])
+            eo = eo + ["<crash>"] * (len(lines) - len(eo))
+        for i, (suite, line) in enumerate(cases):
+            s = per.setdefault(suite, {"evaluations": 0, "outs": set(), "samples": [], "disagree": 0, "falsified": 0})
+            s["evaluations"] += 1
+            if len(s["outs"]) < 200000:
+                s["outs"].add(eo[i][:40])
+            if len(s["samples"]) < 3 and i % 97 == 0:
+                s["samples"].append({"op": line[:120], "impl": eo[i][:120], "model": (do[i][:120] if do else None)})
+            f = falsify(line, eo[i]) if eo[i] != "<crash>" else None
+            if f:
+                s["falsified"] += 1
+                if s["falsified"] <= 2:
+                    ctx.violation("falsifier:" + suite, f, replay_lines=[line], detail="impl: %s" % eo[i])
+            if do is not None and eo[i] != do[i] and eo[i] != "<crash>":
+                s["disagree"] += 1
+                if s["disagree"] <= 2 and not f:
+                    ctx.violation("correspondence:" + suite, "model and implementation disagree on `%s`" % line[:100],
+                                  replay_lines=[line], detail="impl:  %s\nmodel: %s" % (eo[i], do[i]), no_input=True)
+        for at, rc, err in crashes:
+            ctx.violation("sanitizer", "executor died (rc=%s) on `%s`" % (rc, lines[at][:100] if at < len(lines) else "<exit>"),
+                          replay_lines=[lines[at]] if at < len(lines) else [], detail=err[-1500:])
+    for c in gen_cases(ctx, deep):
+        batch.append(c)
+        if len(batch) >= 1000000:
+            flush()
+    flush()
     for suite, s in per.items():
         ctx.add_suite(suite, evaluations=s["evaluations"], distinct_nontrivial=len(s["outs"]),
-                      rule="distinct = distinct implementation answers; every case compared with the Lean model and judged by the falsifier",
+                      rule="distinct = distinct implementation answers (counted up to 200000 per suite); every case compared with the Lean model and judged by the falsifier",
                       exhaustive=suite in ("enc-exh-len0-2", "dec-exh-len1-2", "dec-4char-groups", "enc-raw") or
                       (suite == "enc-3byte-blocks" and (ctx.tier == "thorough" or deep)),
                       disagreements=s["disagree"], falsified=s["falsified"], samples=s["samples"])
